@@ -11,6 +11,10 @@ mod sem_enum;
 #[cfg(feature = "b1")]
 mod sem_flat;
 #[cfg(feature = "b1")]
+mod sem_diff;
+#[cfg(feature = "b1")]
+mod sem_prim;
+#[cfg(feature = "b1")]
 mod feat;
 #[cfg(feature = "b1")]
 mod corpus;
